@@ -97,6 +97,7 @@ structure State where
   blockTxs : List String             -- transactions delivered in the current block
   bal2 : List (Addr × Int)           -- balances in a second denomination (non-zero only); it moves only as part of a fee
   supply2 : Int
+  upgrade : Int × String := (0, "")  -- the upgrade plan (height, version) of the gov parameter store
   deriving Repr
 
 def forever : Int := -1
@@ -529,6 +530,16 @@ def parseAcl (v : String) : Option (List (String × Addr)) :=
   (stripPrefix "{\"type\":\"gov/non_map_acl\",\"value\":[".toList v.toList).bind fun r =>
     if r == [']', '}'] then some [] else parseAclEntries r.length r
 
+/-- the upgrade plan in the canonical amino JSON of the parameter store:
+`{"type":"gov/upgrade","value":{"Height":"<digits>","Version":"<text without a double quote>"}}` -/
+def parseUpgrade (v : String) : Option (Int × String) :=
+  (stripPrefix "{\"type\":\"gov/upgrade\",\"value\":{\"Height\":\"".toList v.toList).bind fun r1 =>
+  (untilQuote r1).bind fun (h, r2) =>
+  (stripPrefix ",\"Version\":\"".toList r2).bind fun r3 =>
+  (untilQuote r3).bind fun (ver, r4) =>
+  if r4 != ['}', '}'] then none else
+  (digitsToInt h).map fun n => (n, String.ofList ver)
+
 /-- `Subspace.Update` for the parameters the model tracks; a value that does not decode leaves
 the parameter unchanged (the error is ignored by `ModifyParam`). -/
 def applyParam (s : State) (key val : String) : State :=
@@ -541,6 +552,11 @@ def applyParam (s : State) (key val : String) : State :=
   | "pos/MinSignedPerWindow" => match parseQuotedDec val with | some n => { s with p := { s.p with minSignedRaw := n } } | none => s
   | "auth/MaxMemoCharacters" => match parseQuotedInt val with | some n => { s with p := { s.p with maxMemo := n } } | none => s
   | "gov/daoOwner" => match parseQuotedAddr val with | some a => { s with daoOwner := a } | none => s
+  | "pos/DowntimeJailDuration" => match parseQuotedInt val with | some n => { s with p := { s.p with jailDur := n } } | none => s
+  | "pos/MaxEvidenceAge" => match parseQuotedInt val with | some n => { s with p := { s.p with maxAge := n } } | none => s
+  | "pos/SlashFractionDoubleSign" => match parseQuotedDec val with | some n => { s with p := { s.p with sfDouble := n } } | none => s
+  | "pos/SlashFractionDowntime" => match parseQuotedDec val with | some n => { s with p := { s.p with sfDown := n } } | none => s
+  | "gov/upgrade" => match parseUpgrade val with | some u => { s with upgrade := u } | none => s
   | _ => s
 
 /-- A message handler: `none` = error result or panic (the cache is discarded). -/
@@ -605,10 +621,10 @@ def handle (s : State) : Msg → Option State
     if s.daoOwner != src then none
     else if amt < 0 then none
     else burnFrom s s.daoAcc amt
-  | .upgrade src _ _ =>
+  | .upgrade src h ver =>
     match s.acl.lookup "gov/upgrade" with
     | none => none
-    | some owner => if owner != src then none else some s
+    | some owner => if owner != src then none else some { s with upgrade := (h, ver) }
 
 /-! ### transactions -/
 
